@@ -7,12 +7,16 @@
    (1) Seeded draws.  A configuration
           cfg = [api, seed, dist, shape, chunks, nth]
        (Generator or RandomState made from `seed`; the nth array that generator
-       creates, after nth-1 fixed preceding creations; distribution, shape and
-       chunks) must have ONE value: every observation - another scheduler, a
-       recomputation of the same array, the array created again from a fresh
-       generator with the same seed - gives the same fingerprint.
-          drawn : cfg -> fingerprint      DrawStep keeps it a function.
-   (2) Unseeded arrays created separately: their names are pairwise distinct,
+       creates, after nth-1 fixed preceding creations; distribution - including
+       choice with and without replacement and permutation -, shape and chunks)
+       must have ONE value.  The recorded history of a configuration says which
+       collection OBJECT each computation was made on: recomputing one object
+       (same scheduler again, another scheduler) must repeat its value (clause
+       Recompute), and the array created again from a fresh generator with the
+       same seed must have that value too (clause Deterministic).
+   (2) Unseeded arrays created separately - by separate generators, by the module
+       level functions, or by successive identical calls on ONE unseeded generator
+       object, for every distribution incl. single-chunk choice -: their names are pairwise distinct,
        no task key belongs to two of them, and when they are computed together
        each keeps the value it has when computed alone.
    (3) choice(replace=False): the result has the requested length, every
@@ -25,19 +29,28 @@ EXTENDS Naturals, Integers, Sequences, FiniteSets, TLC
 
 Unset == 0                    \* fingerprints, names and keys are positive integers
 
-\* ---- (1) seeded draws: obs = <<[how, fp]>> in the order observed
+\* ---- (1) seeded draws: obs = <<[how, obj, fp]>> in the order observed.
+\* obj names the COLLECTION OBJECT that was computed: the observations with one obj are the history of
+\* computations of one collection (again on sync, on threads twice, on the process pool twice);
+\* another obj is the same configuration created again from a fresh generator with the same seed.
+\*    Recompute     : one collection object has one value, however often and wherever it is computed
+\*    Deterministic : all collection objects of one configuration have that same value
 RECURSIVE DrawWalk(_, _, _)
-DrawWalk(obs, j, drawn) ==
+DrawWalk(obs, j, first) ==          \* first : obj -> fingerprint of the first computation of that object
   IF j > Len(obs) THEN {}
-  ELSE IF obs[j].fp = Unset THEN { "Raised_" \o obs[j].how }
-  ELSE IF drawn = Unset THEN DrawWalk(obs, j + 1, obs[j].fp)
-  ELSE IF obs[j].fp # drawn THEN { "Deterministic_" \o obs[j].how }
-  ELSE DrawWalk(obs, j + 1, drawn)
-DrawBad(obs) == DrawWalk(obs, 1, Unset)
-\* the global definition
+  ELSE LET o == obs[j] IN
+       IF o.fp = Unset THEN { "Raised_" \o o.how }
+       ELSE IF o.obj \in DOMAIN first
+            THEN (IF first[o.obj] # o.fp THEN { "Recompute_" \o o.how } ELSE DrawWalk(obs, j + 1, first))
+       ELSE IF \E q \in DOMAIN first : first[q] # o.fp THEN { "Deterministic_" \o o.how }
+       ELSE DrawWalk(obs, j + 1, (o.obj :> o.fp) @@ first)
+DrawBad(obs) == DrawWalk(obs, 1, <<>>)
+\* the global definitions
+RecomputeOK(obs)       == \A i, j \in DOMAIN obs : obs[i].obj = obs[j].obj => obs[i].fp = obs[j].fp
 DrawDeterministic(obs) == \A i, j \in DOMAIN obs : obs[i].fp = obs[j].fp /\ obs[i].fp # Unset
 
-\* ---- (2) unseeded arrays: names, keys (a sequence of key sets as sequences), alone, together
+\* ---- (2) unseeded arrays: names, keys (per array the keys of its OUTPUT tasks - the random draws; input tasks such as
+\* a parameter array or the population of choice are rightly shared by arrays made from the same arguments), alone, together
 ToSet(s) == { s[i] : i \in DOMAIN s }
 NamesDistinct(names) == \A i, j \in DOMAIN names : i # j => names[i] # names[j]
 KeysDisjoint(keys)   == \A i, j \in DOMAIN keys : i # j => ToSet(keys[i]) \cap ToSet(keys[j]) = {}
